@@ -14,8 +14,9 @@
 //	exit        the child process ended
 //
 // Monitors only (C01 C02 C04 C05 C06 C15), independent of any model.  The progress tracker of the
-// binary ticks every 5 s (hard-coded in app/runner.go, there is no flag), so a case takes ~5 s, a
-// case with held sink calls ~10 s (the hold must outlive one ledger tick), a "stall" case ~16 s.
+// binary ticks every 5 s (hard-coded in app/runner.go, there is no flag; an emission is sometimes
+// skipped and comes 10 s after the previous one), so a case takes ~5 (10) s, a case with held sink
+// calls ~10 (15-20) s (the hold must outlive one emission), a "stall" case ~10.5 s (it ends at the release).
 // Every "the system is done" decision is an event or a silence stretched by the scheduling-latency
 // canary; such decisions only ever cost a missed opportunity, never a reported violation, except the
 // negative C02 judgement which waits two full ledger periods.
@@ -415,6 +416,7 @@ func (w *world) beforeData(lsn uint64, text string) <-chan struct{} {
 	pause := w.pauseAt[lsn]
 	stall := w.stallAt != 0 && lsn == w.stallAt
 	isBegin := strings.HasPrefix(text, "BEGIN ")
+	w.quietRef = time.Now() // the stream is moving
 	if lsn == w.lastMsgLsn && strings.HasPrefix(text, "COMMIT ") && !w.sentAll {
 		w.sentAll, w.sentAt = true, time.Now()
 		w.quietRef = w.sentAt
@@ -789,7 +791,8 @@ func (o *outPipe) fill(limit time.Duration) bool {
 		}
 	}()
 	deadline := time.Now().Add(limit)
-	lastQ, lastC, stable := -2, int64(-1), 0
+	lastQ, lastC := -2, int64(-1)
+	var since time.Time
 	for time.Now().Before(deadline) {
 		select {
 		case <-done:
@@ -797,16 +800,17 @@ func (o *outPipe) fill(limit time.Duration) bool {
 		default:
 		}
 		q, n := o.queued(), atomic.LoadInt64(&chunks)
-		if q == lastQ && n == lastC && n >= 1 && q >= 4096 {
-			stable++
-			if stable >= 4 {
-				return true
-			}
-		} else {
-			stable = 0
+		if q != lastQ || n != lastC {
+			lastQ, lastC, since = q, n, time.Now()
 		}
-		lastQ, lastC = q, n
-		time.Sleep(stretched(5 * time.Millisecond))
+		need := stretched(20 * time.Millisecond)
+		if need > 400*time.Millisecond {
+			need = 400 * time.Millisecond
+		}
+		if n >= 1 && q >= 4096 && time.Since(since) >= need {
+			return true
+		}
+		time.Sleep(4 * time.Millisecond)
 	}
 	return false
 }
@@ -994,7 +998,9 @@ func runCase(c Case) (res result) {
 		if w.sinkSettledLocked() {
 			return true
 		}
-		return w.sentAll && time.Since(w.quietRef) > stretched(400*time.Millisecond)
+		// silence: nothing was streamed, submitted or accepted for a (stretched) while, and either the
+		// whole stream is out or a held call is what keeps the pipeline (and through it the server) waiting
+		return (w.sentAll || len(w.gates) > 0) && time.Since(w.quietRef) > stretched(400*time.Millisecond)
 	}, deadline)
 	if !settled {
 		return finish("unsettled")
@@ -1055,7 +1061,7 @@ func runCase(c Case) (res result) {
 			ref = ts
 		}
 		// (an emission can come up to two periods after the previous one, see above)
-		if w.pending == 0 && len(w.gates) == 0 && time.Since(ref) > 2*ledgerPeriod+stretched(2500*time.Millisecond) {
+		if w.sentAll && w.pending == 0 && len(w.gates) == 0 && time.Since(ref) > 2*ledgerPeriod+stretched(2500*time.Millisecond) {
 			res.C02Neg = true
 			return true
 		}
@@ -1092,7 +1098,7 @@ func (w *world) stall(out *outPipe, p *os.Process, ready <-chan struct{}, exited
 	}
 	time.Sleep(stretched(100 * time.Millisecond)) // the remaining start-up lines of the other stages
 	out.pause()
-	if !out.fill(2 * time.Second) {
+	if !out.fill(3 * time.Second) {
 		return "not-achieved:pipe-not-full"
 	}
 	if err := p.Signal(syscall.SIGIO); err != nil {
@@ -1110,7 +1116,7 @@ func (w *world) stall(out *outPipe, p *os.Process, ready <-chan struct{}, exited
 			out.unpause()
 			time.Sleep(stretched(40 * time.Millisecond))
 			out.pause()
-			if !out.fill(2 * time.Second) {
+			if !out.fill(3 * time.Second) {
 				return "not-achieved:pipe-not-full"
 			}
 			continue
@@ -1285,11 +1291,13 @@ func monitor(c Case, r result) []core.Violation {
 					b, err := strconv.Atoi(rc.PK)
 					if err != nil || b < 0 || b >= c.Buckets || strconv.Itoa(b) != rc.PK {
 						add("C06", "app/kinesis-partition-key-wrong", fmt.Sprintf("partition method transaction-bucket with %d bucket(s): the record at %s is keyed %q", c.Buckets, X(rc.Lsn), rc.PK))
-					} else if prev, ok := txnKey[wh.txn]; ok && prev != rc.PK {
-						add("C06", "app/kinesis-partition-key-wrong", fmt.Sprintf("partition method transaction-bucket: records of transaction %s are keyed %q and %q", t.Xid, prev, rc.PK))
+					} else {
+						if prev, ok := txnKey[wh.txn]; ok && prev != rc.PK {
+							add("C06", "app/kinesis-partition-key-wrong", fmt.Sprintf("partition method transaction-bucket: records of transaction %s are keyed %q and %q", t.Xid, prev, rc.PK))
+						}
+						txnKey[wh.txn] = rc.PK
+						keys[rc.PK] = true
 					}
-					txnKey[wh.txn] = rc.PK
-					keys[rc.PK] = true
 				}
 				if !undisturbed {
 					continue
@@ -1677,6 +1685,12 @@ func init() {
 		c.ObservedLog, c.ObservedNote = nil, ""
 		r := runCase(c)
 		var sb strings.Builder
+		// the stalled-tracker race is decided by the fair choice of the tracker's select between two
+		// ready channels: a failing history is reproduced with probability 1/2 per run
+		for try := 1; c.Stall > 0 && r.Infra == "" && len(monitor(c, r)) == 0 && try < 5; try++ {
+			fmt.Fprintf(&sb, "(run %d of the stall shape showed no violation; the race is a fair coin, running it again)\n", try)
+			r = runCase(c)
+		}
 		sb.WriteString(describe(c, r))
 		if os.Getenv("VERIF_DEBUG") != "" {
 			fmt.Fprintf(&sb, "child output tail:\n%s\n", r.ChildTail)
@@ -1693,7 +1707,7 @@ func init() {
 		for i := 0; i < n; i++ {
 			cases = append(cases, genCase(rng))
 		}
-		rep.Rule = "corpus first (directed shapes: interleaved positions across the 4 GiB boundary, filters incl. a fully filtered transaction, held sink calls, the stalled-tracker race, the three PutRecords limits), then seeded cases: 7/16 plain, 7/16 with 1-2 held sink calls (slow worker; released after a ledger tick), 1/16 limits (>500 records or >5 MiB with an over-size row), 1/16 stalled progress tracker with an earlier transaction's batch held. 1-6 transactions, 0-4 changes over public.a/b/c and a quoted table, INSERT/UPDATE/DELETE, half with interleaved positions, 1/6 across 0/FFFFFFxx->1/xx, 1/6 high positions, 1/6 whitelist, 1/6 blacklist, 1/4 configured through environment variables. Each case = one run of the REAL BINARY (main.go + app/runner.go wiring) with real flags --workers 1-4, --partition-method (4), --partition-count 1-4, --batcher-routing-method (2), --batch-flush-update-age / --batch-flush-max-age / --batcher-tick-rate 20-60 ms (either age may be the larger), --batch-queue-depth 1-4, --client-buffer-size default/16/256, kinesis --endpoint <fake>. Non-trivial: at least 2 sink calls and (a call was really held, or the stall was achieved, or at least 2 Kinesis partition keys, or a filter removed something); distinct by the case description. No Coq model is evaluated by this component."
+		rep.Rule = "corpus first (directed shapes: interleaved positions across the 4 GiB boundary, filters incl. a fully filtered last transaction, held sink calls incl. one worker with queue depth 1, the three PutRecords limits, six instances of the stalled-tracker race, each of which exposes a seen/written reordering with probability 1/2), then seeded cases: 7/16 plain, 7/16 with 1-2 held sink calls (slow worker; released after a ledger tick), 1/16 limits (>500 records or >5 MiB with an over-size row), 1/16 stalled progress tracker with an earlier transaction's batch held. 1-6 transactions, 0-4 changes over public.a/b/c and a quoted table, INSERT/UPDATE/DELETE, half with interleaved positions, 1/6 across 0/FFFFFFxx->1/xx, 1/6 high positions, 1/6 whitelist, 1/6 blacklist, 1/4 configured through environment variables. Each case = one run of the REAL BINARY (main.go + app/runner.go wiring) with real flags --workers 1-4, --partition-method (4), --partition-count 1-4, --batcher-routing-method (2), --batch-flush-update-age / --batch-flush-max-age / --batcher-tick-rate 20-60 ms (either age may be the larger), --batch-queue-depth 1-4, --client-buffer-size default/16/256, kinesis --endpoint <fake>. Non-trivial: at least 2 sink calls and (a call was really held, or the stall was achieved, or at least 2 Kinesis partition keys, or a filter removed something); distinct by the case description. No Coq model is evaluated by this component."
 		if _, err := buildBinary(); err != nil {
 			rep.Notes = append(rep.Notes, "every case dropped: the pg-bifrost binary could not be built: "+tail(err.Error(), 1500))
 			rep.Distribution["dropped:build"] += len(cases)
